@@ -80,14 +80,21 @@ def players(report, db, S):
     report.floor('player list actions', len(subs), 5)
     for ci in subs:
         fi = db.own_method(ci, 'apply')
+        inherited = False
         if fi is None:
+            # a template method of the base class that calls a hook of the
+            # action: summarised for this very class (hooks and class-level
+            # constants resolve through its MRO)
+            fi = db.find_method(ci, 'apply')
+            inherited = True
+        if fi is None or fi.cls is act and not inherited:
             report.violation(R, 'apply:missing:%s' % ci.name, ci.path,
                              ci.node, ci.qualname, 'action has no apply()')
             continue
         me, pl = sy(fi.all_params[0]), sy(fi.all_params[1])
         tbl = at(pl, 'players_by_uuid')
         uuid = at(me, 'uuid')
-        paths = S.run(fi)
+        paths = S.run(fi, exact_self=ci) if inherited else S.run(fi)
         inserts = [(p, e) for p in paths for e in p.flat(('setitem',))
                    if struct(e.base) == tbl]
         raw = [t for p in paths for t in path_terms(p)
@@ -155,8 +162,13 @@ def players(report, db, S):
                     if struct(e.base) != tbl or e.raised:
                         continue
                     removed += 1
+                    found = ('call', ('attr', tbl, 'get'), (uuid,), (), None)
                     if struct(e.key) != uuid or not (any(
-                            struct(a) == member and pol
+                            (struct(a) == member and pol) or
+                            (a[1] == 'is' and struct(a[2][0]) == found and
+                             a[2][1] == ('const', None) and not pol) or
+                            (a[1] == 'truth' and struct(a[2][0]) == found
+                             and pol)
                             for a, pol, _ in p.conds_at(e))
                             or absorbed.get(id(e.node))):
                         okk = False
@@ -217,6 +229,32 @@ def players(report, db, S):
                              'found one (%s)' % (ci.name, why))
     ap = db.own_method(pk, 'apply')
     me, pl = sy(ap.all_params[0]), sy(ap.all_params[1])
+
+    def template_step(call, pl_):
+        """the loop calls, on each action, exactly the hook the base class's
+        apply(player_list) calls on self, with the same arguments"""
+        base = db.own_method(act, 'apply')
+        if base is None:
+            return False
+        bme, bpl = sy(base.all_params[0]), sy(base.all_params[1])
+        bp = [q for q in S.run(base) if q.returns]
+        if len(bp) != 1:
+            return False
+        calls = [c for c in bp[0].calls() if c.fn[0] == 'attr'
+                 and struct(c.fn[1]) == bme]
+        others = [c for c in bp[0].flat(('call', 'store', 'setitem',
+                                         'delitem')) if c not in calls
+                  and not (c.kind == 'call' and c.method() == 'get')]
+        if len(calls) != 1 or others or calls[0].fn[2] != call.fn[2] or \
+                len(calls[0].args) != len(call.args) or call.kwargs or \
+                calls[0].kwargs:
+            return False
+        elem = call.fn[1]
+        for a, b in zip(calls[0].args, call.args):
+            a2 = pathsum.replace(pathsum.replace(a, bme, elem), bpl, pl_)
+            if struct(a2) != struct(b):
+                return False
+        return True
     okk = False
     paths = S.run(ap)
     for p in paths:
@@ -228,6 +266,13 @@ def players(report, db, S):
                     and body[0].fn[1][0] == 'elem' and \
                     [struct(x) for x in body[0].args] == [pl]:
                 okk = True
+            elif len(loops[0].paths) == 1 and len(
+                    [c for c in body if c.method() != 'get']) == 1 and \
+                    [c for c in body if c.method() != 'get'][0].fn[0] == \
+                    'attr' and [c for c in body if c.method() != 'get'][
+                        0].fn[1][0] == 'elem' and template_step(
+                            [c for c in body if c.method() != 'get'][0], pl):
+                okk = True      # the template method's one step, per action
             else:
                 okk = False
                 break
@@ -238,7 +283,10 @@ def players(report, db, S):
         report.ok(R, 'packet.apply applies self.actions front to back')
     else:
         report.violation(R, 'apply:order', ap.path, ap.node, ap.qualname,
-                         'the packet does not apply its actions in order')
+                         'the packet does not apply its actions one after the other, each '
+                         'looking its player up when its turn comes (an '
+                         'earlier action of the same packet may add or '
+                         'remove that player)')
 
 
 # ---------------------------------------------------------------------------
